@@ -68,6 +68,17 @@ def _reindexes_holders(fn, shift_bb, op="remove", prog=None):
     pv = mir.Prov(body)
     shift = body.term(shift_bb)
     removed = mir.strip_all(pv.of_operand(shift["args"][1])) if len(shift["args"]) > 1 else None
+    # the rewrite follows the shift on EVERY path: a shortcut around it (`the removed block was the last one`)
+    # rests on arithmetic about lengths that nothing here can check, and one slip leaves stale indices behind
+    walks = {b for b, t in body.calls() if b in after and mir.callee_path(t).split("::")[-1] in ("values_mut", "iter_mut")
+             and common.receiver_field(pv, t) in ("static_memory_blocks", "states")}
+    helper_calls = {b for b, t in body.calls() if b in after and prog is not None and
+                    (prog.fns.get(t.get("res") or mir.callee_of(t)) is not None) and
+                    prog.fns[t.get("res") or mir.callee_of(t)].file == fn.file and
+                    any(mir.strip_all(pv.of_operand(a)) == removed for a in t["args"])}
+    through = walks | helper_calls
+    if through and not body.every_path_passes(shift_bb, set(body.exits()), through):
+        return False
     if _reindex_in(body, after, removed):
         return True
     if prog is not None and _reindex_chains(prog, fn, after, removed):
